@@ -315,7 +315,19 @@ class C13(Spec):
         return us
 
 
-_SPECS = {'C08': C08, 'C09': C09, 'C10': C10, 'C11': C11, 'C13': C13, 'C01': C01, 'C02': C02, 'C03': C03, 'C04': C04, 'C05': C05, 'C06': C06, 'C07': C07}
+class C18(Spec):
+    design_ref = 'DESIGN.md 4/C18'
+    level_text = ('reflexivity (X==X, X.isApprox(X)) and hemisphere independence on the element lattice incl. linear magnitudes up to 1e9; symmetry and the well-below / well-above eps behaviour for every tangent coordinate, '
+                  '7 distance ratios and 4 eps values, on every third element (where the rounding noise of X(-)Y is negligible against eps); the same for tangents (absolute test against zero, relative otherwise)')
+    rule = 'cells = elements x {reflexive, -q}, (element, eps, coordinate, ratio), (tangent, eps, coordinate, ratio); the decade around eps is recorded, not judged; non-trivial = non-zero rotation'
+    explanation = 'explicit enumeration on the real code; oracle = the tolerance relation stated in the property (true when s <= 0.1 eps, false when s >= 10 eps)'
+    assumptions = COMMON_ASSUMPTIONS
+
+    def units(self, tier):
+        return lattice_units('checks/c18.cpp', shards=(lambda g, s: (4 if 'SGal3' in g or g == 'SE_2_3' else 2) * (2 if tier == 'thorough' else 1)))
+
+
+_SPECS = {'C08': C08, 'C09': C09, 'C10': C10, 'C11': C11, 'C13': C13, 'C18': C18, 'C01': C01, 'C02': C02, 'C03': C03, 'C04': C04, 'C05': C05, 'C06': C06, 'C07': C07}
 
 
 def get(prop):
